@@ -136,6 +136,7 @@ class FastHierarchyAnalyzer(HierarchyAnalyzerBase):
             return tuple(taken_sel_opt), graph
 
         # Iterate over current and neighboring design vectors
+        fixed_key = tuple(is_fixed)
         tried = []
         opt_idx_imp = opt_idx
         graph_instance = None
@@ -144,9 +145,9 @@ class FastHierarchyAnalyzer(HierarchyAnalyzerBase):
             if opt_idx_try in exclude:
                 continue
 
-            # Check cache
-            if opt_idx_try in self._imputation_cache:
-                outputs = self._imputation_cache[opt_idx_try]
+            # Check cache (imputation depends on which design variables are fixed)
+            if (opt_idx_try, fixed_key) in self._imputation_cache:
+                outputs = self._imputation_cache[opt_idx_try, fixed_key]
                 if tuple(outputs[1]) not in exclude:
                     return outputs
 
@@ -178,7 +179,7 @@ class FastHierarchyAnalyzer(HierarchyAnalyzerBase):
         activeness = list(np.array(choice_opt_idx) != X_INACTIVE_VALUE)
         outputs = (graph_instance, choice_opt_idx, activeness, None)
         for key in tried:
-            self._imputation_cache[key] = outputs
+            self._imputation_cache[key, fixed_key] = outputs
         return outputs
 
     def _iter_neighborhood(self, opt_idx: List[int], is_fixed: List[bool]) -> Generator[Tuple[int, ...], None, None]:
